@@ -158,6 +158,14 @@ pub fn run_pairing(a: &Args, out: &mut Out) {
     let pool = load_pool(&a.pool, "Fr");
     let mut rng = rng_from(a.seed, "pairing");
     let focus = a.focus.as_str();
+    // the FIRST pairings of the process see the generators in non-affine representatives (a value computed on first use from a
+    // special input and kept must not depend on the representative that happened to come first)
+    {
+        let (p, q) = (g1_rep(&mut rng, G1::one(), "J"), g2_rep(&mut rng, G2::one(), "J"));
+        for v in ["fast", "prepared", "pairing"] {
+            pair_ev(out, v, p, q, Fr::one(), Fr::one(), false);
+        }
+    }
     // fixed: generators, identities in every form, on every entry point
     for v in ENTRY {
         pair_ev(out, v, G1::one(), G2::one(), Fr::one(), Fr::one(), true);
@@ -214,6 +222,21 @@ pub fn run_pairing(a: &Args, out: &mut Out) {
                 out.call("pair", json!({"v": v, "p": p.jac(), "q": q.jac(), "ka": b(&[0u8; 32]), "kb": b(&kb.to_slice()), "full": true, "nodl": true}), || {
                     outs! {"out" => b(&pair_by(v, p, q).to_slice())}
                 });
+            }
+        }
+    }
+    if focus == "vector" || focus == "agree" {
+        // G2 representatives whose normalisation computes a product in the 'two subtractions' class of the sum of products
+        for (i, w) in hi_w().iter().enumerate() {
+            let (ka, kb) = (pick_scalar(&mut rng, &pool), pick_scalar(&mut rng, &pool));
+            if ka.is_zero() || kb.is_zero() { continue; }
+            if let Some(l) = fq2_inv(*w) {
+                let mut qn = G2::one() * kb;
+                qn.normalize();
+                let (p, q) = (G1::one() * ka, g2_scale(qn, l));
+                for (j, v) in ENTRY.iter().enumerate() {
+                    pair_ev(out, v, p, q, ka, kb, focus == "vector" && j == i % 3);
+                }
             }
         }
     }
